@@ -31,6 +31,9 @@ inductive Out where
 /-- `GetLatestInfoUntilBlock`: last leaf (chain order) with block ≤ t -/
 def latestUntil (leaves : List Leaf) (t : Nat) : Option Leaf := (leaves.filter (fun l => l.block ≤ t)).getLast?
 
+/-- what an L1 reorg from block `k` on leaves of the syncer's leaves -/
+def reorgLeaves (leaves : List Leaf) (k : Nat) : List Leaf := leaves.filter (fun l => l.block < k)
+
 /-- the body of a tick once the target block `t` is fixed -/
 def tickAt (t : Nat) (e : Env) : Nat × Out :=
   if t = 0 then (0, .failed)                          -- ErrNoBlock0
